@@ -97,8 +97,12 @@ func (n *node[K, V]) search(t *BTree[K, V], key K, height int) (V, bool) {
 
 // Put inserts a new value into the B-tree.
 func (t *BTree[K, V]) Put(key K, val V) {
+	// Count the key only if it is not already present (overwriting must not grow the size).
+	_, found := t.Get(key)
 	u := t.root.insert(t, key, val, t.height, false)
-	t.n++
+	if !found {
+		t.n++
+	}
 	if u == nil {
 		return
 	}
